@@ -697,7 +697,7 @@ func history(c *vk.C, tg target, k int, dir string) {
 			hist = append(hist, fmt.Sprintf("[%d,%d] client %d: %+v -> %+v", op.Call, op.Return, op.ClientId, op.Input, op.Output))
 		}
 
-		path := filepath.Join(vk.Root(), "artifacts", "C01", fmt.Sprintf("nonlinearizable-%s-seed%d-%d.html", tg.name, c.Seed, k))
+		path := filepath.Join(vk.OutRoot(), "artifacts", "C01", fmt.Sprintf("nonlinearizable-%s-seed%d-%d.html", tg.name, c.Seed, k))
 		_ = os.MkdirAll(filepath.Dir(path), 0o755)
 		_ = porcupine.VisualizePath(model, info, path)
 
